@@ -13,12 +13,48 @@ ENTRIES = ["statements", "select_statement", "single_select_statement", "logical
            "column_or_index", "alter_expression", "set_statement", "create_table_statement", "drop_table_statement", "analyze_table_statement",
            "alter_table_statement", "msck_repair_table_statement", "use_statement", "truncate_table_statement", "update_statement", "delete_statement",
            "show_columns_statement", "insert_statement"]
+# the other 26 public parse_* methods (lean/MsqModel/Parse/Entry2.lean): with ENTRIES, every public parsing entry point of SQLParser (84)
+ENTRIES2 = ["insert_type", "join_type", "order_type", "union_type", "compare_operator", "compute_operator", "cast_data_type", "window_row_item", "window_row",
+            "wildcard_expression", "alias_expression", "multi_alias_expression", "join_on_expression", "join_using_expression", "join_expression", "select_column",
+            "select_clause", "from_clause", "grouping_sets", "having_clause", "sort_by_clause", "distribute_by_clause", "cluster_by_clause", "with_table",
+            "update_set_column", "update_set_clause"]
+ALL_ENTRIES = ENTRIES + ENTRIES2
 FAMILY = ("OK", "LEX", "PARSE", "NOTSUP")
 SENTINEL = ("MYSQL", "SELECT a, COUNT(b) AS n FROM s.t WHERE c IN (1, 2) GROUP BY a ORDER BY n DESC LIMIT 3")
 DEPTH = 64      # the stated nesting depth (CPython's frame limit is reached from about 95 levels)
 
-# text fragments that are a sensible start for the non-statement entry points
-FRAGMENTS = {"logical_or_level_expression": lambda g: g.cond(), "compute_expression": lambda g: g.expr(), "element_level_expression": lambda g: g.elem(0),
+JOIN_WORDS = ["JOIN", "INNER JOIN", "LEFT JOIN", "LEFT OUTER JOIN", "LEFT SEMI JOIN", "RIGHT JOIN", "RIGHT OUTER JOIN", "RIGHT SEMI JOIN", "FULL JOIN", "FULL OUTER JOIN",
+              "CROSS JOIN", "left join", "Inner Join"]
+ROW_ITEMS = ["CURRENT ROW", "UNBOUNDED PRECEDING", "UNBOUNDED FOLLOWING", "3 PRECEDING", "1 FOLLOWING", "current row", "2 preceding", "unbounded following", "0 FOLLOWING"]
+CAST_NAMES = ["CHAR", "ENUM", "LONGTEXT", "MEDIUMTEXT", "SET", "TEXT", "TINYTEXT", "VARCHAR", "BIT", "BIGINT", "BOOLEAN", "BOOL", "DECIMAL", "DEC", "DOUBLE", "INT", "INTEGER", "MEDIUMINT",
+              "REAL", "SMALLINT", "TINYINT", "DATE", "DATETIME", "TIMESTAMP", "TIME", "YEAR", "BOLB", "MEDIUMBLOB", "LONGBLOB", "TINYBLOB", "STRING", "int", "varchar", "Decimal"]
+
+
+def _stmt(g, fallback, *heads):
+    """a generated statement of the wanted kind (the statement generator draws the kind at random)"""
+    for _ in range(80):
+        t = g.stmt()
+        if t.upper().startswith(heads):
+            return t
+    return fallback
+
+
+def _index(g, fallback, head):
+    for _ in range(60):
+        t = g.index()
+        if t.startswith(head):
+            return t
+    return fallback
+
+
+def _alias(g):
+    return g.ch(["", "", " AS al", " al2", " as `q r`"])
+
+
+# text fragments that are a sensible start for each entry point (the private method behind `parse_cast_function_expression`, `parse_extract_…`, `parse_if_…` starts at the
+# bracket AFTER the function name; a `parse_*_clause` starts at its keyword)
+FRAGMENTS = {"statements": lambda g: g.script(),
+             "logical_or_level_expression": lambda g: g.cond(), "compute_expression": lambda g: g.expr(), "element_level_expression": lambda g: g.elem(0),
              "unary_level_expression": lambda g: g.unary(0), "keyword_condition_level_expression": lambda g: g.pred(1),
              "operator_condition_level_expression": lambda g: g.pred(1), "logical_not_level_expression": lambda g: g.cond(), "logical_and_level_expression": lambda g: g.cond(),
              "logical_xor_level_expression": lambda g: g.cond(), "function_expression": lambda g: "f(" + g.expr() + ")", "select_statement": lambda g: g.query(),
@@ -28,6 +64,50 @@ FRAGMENTS = {"logical_or_level_expression": lambda g: g.cond(), "compute_express
              "column_or_index": lambda g: g.index(), "alter_expression": lambda g: "ADD " + g.coldef(), "partition_expression": lambda g: g.partition(),
              "create_table_statement": lambda g: g.create_table(), "alter_table_statement": lambda g: g.alter(), "window_expression": lambda g: "SUM(a) OVER (ORDER BY b)",
              "table_name_expression": lambda g: g.ch(sqlgen.TABLES), "column_name_expression": lambda g: g.nm() + "." + g.nm(), "join_clause": lambda g: "LEFT JOIN t ON " + g.cond()}
+# … and for the entry points that used to get whole statements only
+FRAGMENTS.update({
+    "function_expression_and_index": lambda g: g.ch(sqlgen.FUNCS) + "(" + g.expr(1) + ")" + g.ch(["", "[0]", "[a + 1]"]),
+    "cast_function_expression": lambda g: "(" + g.expr(1) + " " + g.kw("AS") + " " + g.ch(sqlgen.CAST_T) + ")",
+    "extract_function_expression": lambda g: "(" + g.ch(["YEAR", "month", "DAY"]) + " " + g.kw("FROM") + " " + g.expr(1) + ")",
+    "if_function_expression": lambda g: "(" + g.cond(1) + ", " + g.expr(1) + ", 2)",
+    "sub_query_expression": lambda g: "(" + g.query(1) + ")", "sub_value_expression": lambda g: "(1, " + g.expr(1) + g.ch(["", ", 'x'"]) + ")",
+    "literal_expression": lambda g: g.lit(), "function_name_expression": lambda g: g.ch(sqlgen.FUNCS), "table_expression": lambda g: g.tref(0),
+    "lateral_view_clause": lambda g: "LATERAL VIEW " + g.ch(["", "OUTER "]) + "explode(" + g.nm() + ") " + g.ch(["v", "lv", "`k y`"]) + " AS " + g.ch(["x1", "x1, x2"]),
+    "config_string_expression": lambda g: g.ch(["hive.exec.parallel = true", "a=1", "mapred.job-name = x.y", "a.b-c.d = e", "x = 'v'"]),
+    "column_type_expression": lambda g: g.ch(sqlgen.COLTYPES), "index_column": lambda g: g.ch(["`a`", "b", "`c`(10)", "d(5)"]),
+    "foreign_key_expression": lambda g: _index(g, "CONSTRAINT `fk1` FOREIGN KEY (`a`) REFERENCES `p` (`id`) ON DELETE CASCADE", "CONSTRAINT"),
+    "primary_index_expression": lambda g: _index(g, "PRIMARY KEY (`a`)", "PRIMARY"), "unique_index_expression": lambda g: _index(g, "UNIQUE KEY `uk` (`a`, b)", "UNIQUE"),
+    "normal_index_expression": lambda g: _index(g, "KEY `k1` (`a`) USING BTREE", "KEY"), "fulltext_expression": lambda g: _index(g, "FULLTEXT KEY ft (`a`)", "FULLTEXT"),
+    "set_statement": lambda g: _stmt(g, "SET a = 1", "SET "), "drop_table_statement": lambda g: _stmt(g, "DROP TABLE IF EXISTS t", "DROP "),
+    "analyze_table_statement": lambda g: _stmt(g, "ANALYZE TABLE t PARTITION (dt) COMPUTE STATISTICS NOSCAN", "ANALYZE "),
+    "msck_repair_table_statement": lambda g: _stmt(g, "MSCK REPAIR TABLE s.t", "MSCK "), "use_statement": lambda g: _stmt(g, "USE db", "USE "),
+    "truncate_table_statement": lambda g: _stmt(g, "TRUNCATE TABLE t", "TRUNCATE "), "update_statement": lambda g: _stmt(g, "UPDATE t SET a = 1 WHERE b = 2 LIMIT 3", "UPDATE "),
+    "delete_statement": lambda g: _stmt(g, "DELETE FROM t WHERE a = 1 ORDER BY a LIMIT 2", "DELETE "),
+    "show_columns_statement": lambda g: "SHOW COLUMNS FROM " + g.ch(sqlgen.TABLES) + g.ch(["", " WHERE " + g.cond(1)]),
+    "insert_statement": lambda g: _stmt(g, "INSERT INTO t (a, b) VALUES (1, 'x')", "INSERT "),
+    # the 26 entry points of ENTRIES2
+    "insert_type": lambda g: "INSERT " + g.ch(["INTO", "IGNORE INTO", "OVERWRITE", "OVERWRITE TABLE", "INTO TABLE", "into", "ignore into"]) + " " + g.ch(sqlgen.TABLES),
+    "join_type": lambda g: g.ch(JOIN_WORDS) + " " + g.ch(sqlgen.TABLES), "order_type": lambda g: g.ch(["DESC", "ASC", "desc", "asc", "Desc", "a"]) + g.ch(["", " NULLS FIRST", ", b"]),
+    "union_type": lambda g: g.ch(["UNION", "UNION ALL", "EXCEPT", "INTERSECT", "MINUS", "union all", "union", "Union All"]) + " SELECT 1",
+    "compare_operator": lambda g: g.ch(sqlgen.CMP_OPS) + " " + g.nm(), "compute_operator": lambda g: g.ch(sqlgen.BIN_OPS + ["~", "!", "div", "Mod"]) + " " + g.nm(),
+    "cast_data_type": lambda g: g.ch(CAST_NAMES) + g.ch(["", "", "(10)", "(10, 2)", " )"]),
+    "window_row_item": lambda g: g.ch(ROW_ITEMS) + g.ch(["", " AND CURRENT ROW"]), "window_row": lambda g: g.kw("ROWS") + " " + g.kw("BETWEEN") + " " + g.ch(ROW_ITEMS) + " " + g.kw("AND") + " " + g.ch(ROW_ITEMS),
+    "wildcard_expression": lambda g: g.ch(["*", "t.*", "`t`.*", "t . *", g.nm() + ".*"]) + g.ch(["", ", a", " FROM t"]),
+    "alias_expression": lambda g: g.ch(["AS x", "x", "as `z z`", "AS `a.b`", "`a`", "As x1", "al"]) + g.ch(["", " FROM t", ", b"]),
+    "multi_alias_expression": lambda g: g.kw("AS") + " " + g.ch(["x1", "x1, x2", "`a b`, c, d", "x1 , x2"]),
+    "join_on_expression": lambda g: g.kw("ON") + " " + g.cond(1), "join_using_expression": lambda g: g.ch(["USING(a, b)", "using(a)", "USING (t.a)", "USING(a)[0]"]),
+    "join_expression": lambda g: g.ch([g.kw("ON") + " " + g.cond(1), "USING(a, b)", "using (a)"]),
+    "select_column": lambda g: (g.cond(1) if g.p(0.3) else g.expr(1)) + _alias(g),
+    "select_clause": lambda g: g.kw("SELECT") + " " + g.ch(["", "", "DISTINCT ", "distinct "]) + ", ".join(g.expr(1) + _alias(g) for _ in range(g.n(1, 3))) + g.ch(["", " FROM t"]),
+    "from_clause": lambda g: g.kw("FROM") + " " + ", ".join(g.tref(1) for _ in range(g.n(1, 2))),
+    "grouping_sets": lambda g: g.kw("GROUPING") + " " + g.kw("SETS") + " (" + ", ".join(g.ch(["(a, b)", "a", "(" + g.expr(1) + ")", g.expr(1), "()", "(a, b, c + 1)"]) for _ in range(g.n(1, 3))) + ")",
+    "having_clause": lambda g: g.kw("HAVING") + " " + g.cond(1),
+    "sort_by_clause": lambda g: g.kw("SORT") + " BY " + ", ".join(g.expr(1) + g.ch(["", " ASC", " DESC", " desc NULLS LAST", " NULLS FIRST"]) for _ in range(g.n(1, 2))),
+    "distribute_by_clause": lambda g: g.kw("DISTRIBUTE") + " BY " + ", ".join(g.expr(1) for _ in range(g.n(1, 2))),
+    "cluster_by_clause": lambda g: g.kw("CLUSTER") + " BY " + ", ".join(g.expr(1) for _ in range(g.n(1, 2))),
+    "with_table": lambda g: g.ch(["w", "`w 3`", "w2"]) + " " + g.kw("AS") + " (" + g.query(1) + ")",
+    "update_set_column": lambda g: g.nm() + " = " + (g.cond(1) if g.p(0.3) else g.expr(1)),
+    "update_set_clause": lambda g: g.kw("SET") + " " + ", ".join(g.nm() + " = " + g.expr(1) for _ in range(g.n(1, 3)))})
 
 
 def malformed(rng, text):
@@ -44,9 +124,8 @@ CLASS_REPS = ["`a.b.c`", "'a.b.c'", "`a..b`", "`.`", "`a.`", "``", "`s`.`t`.`u`"
               "=", "*", "CASE", "NOT", "(SELECT 1)"]
 
 
-def class_substitutions(rng, text, positions):
-    """replace one token of a valid text by a token of every other lexical class (the integer-only, name-only, keyword-only positions of the grammar each get every
-    kind of literal, word, operator and bracket group)"""
+def token_spans(text):
+    """[(start, end)] of the tokens of a text (a quoted string / back-quoted name is one token)"""
     import re
     from props import c09
     spans, pos = [], 0
@@ -56,6 +135,13 @@ def class_substitutions(rng, text, positions):
         elif piece:
             spans.append((pos, pos + len(piece)))       # a quoted string / back-quoted name is one token
         pos += len(piece)
+    return spans
+
+
+def class_substitutions(rng, text, positions):
+    """replace one token of a valid text by a token of every other lexical class (the integer-only, name-only, keyword-only positions of the grammar each get every
+    kind of literal, word, operator and bracket group)"""
+    spans = token_spans(text)
     if not spans:
         return []
     ints = [sp for sp in spans if text[sp[0]:sp[1]].isdigit()]
@@ -69,13 +155,64 @@ def class_substitutions(rng, text, positions):
     return out
 
 
+def entry_cases(rng, base, max_pos, reps_per_pos):
+    """the streams of ONE entry point from one valid text: the text, every token-granularity truncation, character truncations inside tokens, a token of another lexical
+    class at every position (at most `max_pos` positions, `reps_per_pos` classes each — all of CLASS_REPS when None), token deletion, garbage"""
+    out = [(base, "valid")]
+    spans = token_spans(base)
+    pos = spans if len(spans) <= max_pos else [spans[0], spans[-1]] + [rng.choice(spans) for _ in range(max_pos - 2)]
+    for a, b in pos:
+        out.append((base[:a].rstrip(), "truncation"))
+        if b - a > 1:
+            out.append((base[:a + 1 + rng.below(b - a - 1)], "truncation"))
+        reps = CLASS_REPS if reps_per_pos is None else [rng.choice(CLASS_REPS) for _ in range(reps_per_pos)]
+        for rep in reps:
+            if rep != base[a:b]:
+                out.append((base[:a] + rep + base[b:], "class-substitution"))
+        out.append(((base[:a] + base[b:]).strip(), "deletion"))
+    for _ in range(2):
+        out.append((sqlgen.soup(rng, 1 + rng.below(6)), "garbage"))
+    out.append((sqlgen.mutate(rng, base), "mutation"))
+    return out
+
+
+# texts on which the dialect pre-pass of `_unify_input_scanner` (string argument only) is visible
+PREPASS = [("HIVE", "where_clause", "WHERE a == b"), ("HIVE", "logical_or_level_expression", "a == 1 OR b == 'x==y'"), ("DB2", "compute_expression", "CURRENT DATE + 1"),
+           ("DB2", "select_clause", "SELECT CURRENT TIMESTAMP, CURRENT TIME"), ("HIVE", "having_clause", "HAVING a == 1"), ("HIVE", "update_set_column", "a == 1"),
+           ("HIVE", "compare_operator", "== b"), ("HIVE", "statements", "SELECT a FROM t WHERE b == 1"), ("DB2", "statements", "SELECT CURRENT DATE FROM t")]
+OTHER_KINDS = ["none", "bytes", "int", "list"]
+
+
+def judge(ctx, res, meta):
+    """the oracle on one stream: a tree or the library's parse-error family; returns the sentinel's answers"""
+    sentinel_answers = set()
+    for (req, a, b), (e, d, t, kind) in zip(res, meta):
+        k = a.split(" ")[0]
+        ctx.count("entry:" + e, 1)
+        ctx.count("kind:" + kind.split(":")[0], 1)
+        if kind == "sentinel":
+            sentinel_answers.add(a)
+            continue
+        if k in FAMILY:
+            continue
+        if a.startswith("UNMODELLED recursion") and not kind.startswith("nesting"):
+            ctx.count("recursion-beyond-model"); continue
+        sig = "foreign:" + a.split(" ")[1] if a.startswith("PY ") else ("hang" if k == "HANG" else "recursion" if "recursion" in a else "other:" + k)
+        pfam.report(ctx, sig, {"kind": "input", "entry": "parse_" + e, "dialect": d, "input": t, "observed": a[:300], "request": req.split(" ")[0],
+                               "oracle": "c07: outcome must be a tree or LexicalParseError / SqlParseError / NotSupportError", "how_found": "stream " + kind})
+    return sentinel_answers
+
+
 def run(ctx):
     n = 4000 if ctx.quick else 80000
-    ctx.cov["rule"] = ("for every modelled parse_* entry point (%d) and dialect: character and token prefixes of valid texts, single-token deletion / duplication / swap / "
-                       "replacement / insertion, substitution of one token by a token of every other lexical class (every kind of literal, word, keyword, operator, bracket group) in "
-                       "tree-first generated statements of every class, token soups, bracket nesting to depth %d, the regression corpus; correspondence on outcome kind and tree; oracle: the "
-                       "implementation's outcome is a tree or the library's parse-error family, never a foreign exception, never a time-out (5 s), and a sentinel statement "
-                       "parsed between the malformed inputs in the same process always gives the same tree. distinct_nontrivial = distinct accepted trees" % (len(ENTRIES), DEPTH))
+    ctx.cov["rule"] = ("for EVERY public parse_* entry point of SQLParser (%d = the 58 of PM.entries + the 26 of PM.entries2) and dialect: character and token prefixes of valid texts, "
+                       "single-token deletion / duplication / swap / replacement / insertion, substitution of one token by a token of every other lexical class (every kind of literal, word, "
+                       "keyword, operator, bracket group) in tree-first generated statements of every class, token soups, bracket nesting to depth %d, the regression corpus; per entry point "
+                       "(stream per-entry): valid texts of the entry's own grammar, every token-granularity truncation, truncations inside tokens, a token of another lexical class at every "
+                       "position, token deletion, garbage; the three argument kinds of _unify_input_scanner (string; TokenScanner: no dialect pre-pass; anything else: parse error) for every "
+                       "entry point; correspondence on outcome kind, tree and number of unconsumed tokens; oracle: the implementation's outcome is a tree or the library's parse-error family, "
+                       "never a foreign exception, never a time-out (5 s), and a sentinel statement parsed between the malformed inputs in the same process always gives the same tree. "
+                       "distinct_nontrivial = distinct accepted trees" % (len(ALL_ENTRIES), DEPTH))
     ctx.assumptions += ["termination is observed as a 5 s time-out per request; RecursionError is outside the model and is a violation only at nesting depth ≤ %d" % DEPTH,
                         "the sentinel detects state leaked inside one interpreter; cross-process effects are C12's"]
     r = ctx.rng.fork("malformed")
@@ -86,8 +223,8 @@ def run(ctx):
     for i in range(n):
         d = r.choice(pfam.MAIN_DIALECTS)
         g = sqlgen.Gen(r, d, wild=r.chance(0.3))
-        e = r.choice(ENTRIES) if r.chance(0.6) else "statements"
-        base = FRAGMENTS[e](g) if e in FRAGMENTS else g.stmt()
+        e = r.choice(ALL_ENTRIES) if r.chance(0.6) else "statements"
+        base = FRAGMENTS[e](g) if r.chance(0.85) else g.stmt()
         t = base if r.chance(0.15) else malformed(r, base)
         reqs.append(pfam.req_parse(d, t, e)); meta.append((e, d, t, "malformed"))
         if i % 10 == 9:
@@ -101,24 +238,52 @@ def run(ctx):
     for depth in sorted(set([1, 2, 3, 8, 16, 32, 48, DEPTH])):
         for e, mk in (("logical_or_level_expression", lambda k: "(" * k + "a + 1" + ")" * k), ("statements", lambda k: "SELECT " + "(" * k + "1" + ")" * k),
                       ("statements", lambda k: "SELECT * FROM " + "(SELECT * FROM " * k + "t" + ") q" * k), ("compute_expression", lambda k: "f(" * k + "1" + ")" * k),
-                      ("logical_or_level_expression", lambda k: "[" * k + "a" + "]" * k), ("statements", lambda k: "SELECT " + "CASE WHEN a THEN " * k + "1" + " END" * k)):
+                      ("logical_or_level_expression", lambda k: "[" * k + "a" + "]" * k), ("statements", lambda k: "SELECT " + "CASE WHEN a THEN " * k + "1" + " END" * k),
+                      ("select_column", lambda k: "(" * k + "a + 1" + ")" * k + " AS x"), ("with_table", lambda k: "w AS (" + "SELECT * FROM (" * k + "SELECT 1" + ") q" * k + ")"),
+                      ("grouping_sets", lambda k: "GROUPING SETS ((" + "(" * k + "a" + ")" * k + ", b))"), ("join_on_expression", lambda k: "ON " + "NOT (" * k + "a" + ")" * k),
+                      ("update_set_clause", lambda k: "SET a = " + "f(" * k + "1" + ")" * k), ("from_clause", lambda k: "FROM " + "(" * k + "t" + ")" * k)):
             reqs.append(pfam.req_parse("MYSQL", mk(depth), e)); meta.append((e, "MYSQL", mk(depth), "nesting:%d" % depth))
     # one worker process per chunk handles its requests in order, so the sentinel sees what the malformed inputs left behind
     res, bad = ctx.corr(reqs, stream="entry-points")
-    sentinel_answers = set()
-    for (req, a, b), (e, d, t, kind) in zip(res, meta):
-        k = a.split(" ")[0]
-        ctx.count("entry:" + e, 1)
-        if kind == "sentinel":
-            sentinel_answers.add(a)
-            continue
-        if k in FAMILY:
-            continue
-        if a.startswith("UNMODELLED recursion") and not kind.startswith("nesting"):
-            ctx.count("recursion-beyond-model"); continue
-        sig = "foreign:" + a.split(" ")[1] if a.startswith("PY ") else ("hang" if k == "HANG" else "recursion" if "recursion" in a else "other:" + k)
-        pfam.report(ctx, sig, {"kind": "input", "entry": "parse_" + e, "dialect": d, "input": t, "observed": a[:300],
-                               "oracle": "c07: outcome must be a tree or LexicalParseError / SqlParseError / NotSupportError", "how_found": "stream " + kind})
+    sentinel_answers = judge(ctx, res, meta)
+
+    # every entry point with inputs of its own grammar
+    r2 = ctx.rng.fork("per-entry")
+    reqs2, meta2 = [], []
+    for e in ALL_ENTRIES:
+        for j in range(2 if ctx.quick else 12):
+            d = r2.choice(pfam.MAIN_DIALECTS)
+            g = sqlgen.Gen(r2, d, maxdepth=r2.choice([0, 1, 1]), wild=False)
+            base = FRAGMENTS[e](g)
+            if len(base) > 400:
+                base = FRAGMENTS[e](sqlgen.Gen(r2, d, maxdepth=0, wild=False))
+            for t, kind in entry_cases(r2, base, 10 if ctx.quick else 40, 4 if ctx.quick else None):
+                reqs2.append(pfam.req_parse(d, t, e)); meta2.append((e, d, t, kind))
+        reqs2.append(sent); meta2.append(("statements",) + SENTINEL + ("sentinel",))
+    res2, bad2 = ctx.corr(reqs2, stream="per-entry")
+    sentinel_answers |= judge(ctx, res2, meta2)
+
+    # the argument kinds of _unify_input_scanner: a TokenScanner (no dialect pre-pass), neither scanner nor string
+    r3 = ctx.rng.fork("argument-kinds")
+    reqs3, meta3 = [], []
+    for d, e, t in PREPASS:
+        reqs3.append(pfam.req_parse(d, t, e)); meta3.append((e, d, t, "string-argument"))
+        reqs3.append("PS %s %s %s" % (e, d, E.enhex(t))); meta3.append((e, d, t, "scanner-argument"))
+    for e in ALL_ENTRIES:
+        for j in range(2 if ctx.quick else 10):
+            d = r3.choice(["HIVE", "DB2", "MYSQL", "HIVE"])
+            base = FRAGMENTS[e](sqlgen.Gen(r3, d, maxdepth=1, wild=False))
+            t = base if j == 0 else malformed(r3, base)
+            reqs3.append("PS %s %s %s" % (e, d, E.enhex(t))); meta3.append((e, d, t, "scanner-argument"))
+        for k in OTHER_KINDS:
+            reqs3.append("PX %s %s %s" % (e, r3.choice(pfam.MAIN_DIALECTS), k)); meta3.append((e, "-", k, "other-argument"))
+    res3, bad3 = ctx.corr(reqs3, stream="argument-kinds")
+    judge(ctx, res3, meta3)
+    for (req, a, b), m in zip(res3, meta3):
+        if m[3] == "other-argument" and a != "PARSE":
+            pfam.report(ctx, "other-argument:" + a.split(" ")[0], {"kind": "input", "entry": "parse_" + m[0], "dialect": m[1], "input": m[2], "observed": a[:300], "request": "PX",
+                                                                   "oracle": "c07: an argument that is neither a scanner nor a string is refused with the library's parse error", "how_found": "stream other-argument"})
+
     if len(sentinel_answers) > 1:
         pfam.report(ctx, "trace", {"kind": "history", "entry": "parse_statements", "dialect": SENTINEL[0], "input": SENTINEL[1], "observed": sorted(sentinel_answers)[:2],
                                    "oracle": "c07: a rejected input must leave no trace — the sentinel statement parsed differently after some malformed input", "how_found": "sentinel"})
@@ -126,12 +291,23 @@ def run(ctx):
     if sentinel_answers and fresh not in sentinel_answers:
         pfam.report(ctx, "trace", {"kind": "history", "entry": "parse_statements", "dialect": SENTINEL[0], "input": SENTINEL[1], "observed": [fresh] + sorted(sentinel_answers)[:1],
                                    "oracle": "c07: sentinel in a fresh process differs", "how_found": "sentinel"})
-    for (req, a, b), m in list(zip(res, meta))[:200:40]:
-        ctx.sample({"entry": m[0], "dialect": m[1], "input": m[2][:160], "impl": a[:120], "model": b[:120]}, limit=8)
+    missing = [e for e in ALL_ENTRIES if not ctx.cov["distribution"].get("entry:" + e)]
+    if missing:
+        ctx.note_broken("correspondence", "entry-points", "no request for the entry point(s) %s" % missing)
+    for (req, a, b), m in list(zip(res, meta))[:200:40] + list(zip(res2, meta2))[:4000:500]:
+        ctx.sample({"entry": m[0], "dialect": m[1], "input": m[2][:160], "impl": a[:120], "model": b[:120]}, limit=12)
     pfam.conclude(ctx)
 
 
 def replay(payload):
-    a = E.run_impl([pfam.req_parse(payload["dialect"], payload["input"], payload["entry"].replace("parse_", ""))])[0]
-    print("input:", repr(payload["input"]), payload["entry"], payload["dialect"]); print("implementation:", a[:400])
+    op = payload.get("request", "P")
+    e = payload["entry"].replace("parse_", "")
+    if op == "PX":
+        req = "PX %s MYSQL %s" % (e, payload["input"])
+    elif op == "PS":
+        req = "PS %s %s %s" % (e, payload["dialect"], E.enhex(payload["input"]))
+    else:
+        req = pfam.req_parse(payload["dialect"], payload["input"], e)
+    a = E.run_impl([req])[0]
+    print("input:", repr(payload["input"]), payload["entry"], payload["dialect"], op); print("implementation:", a[:400])
     return 0 if a.split(" ")[0] in FAMILY else 1
